@@ -463,6 +463,9 @@ func (s *storage) createTable(archetype *archetype, relations []relationID) *tab
 		s.checkRelationComponent(rel.component)
 		s.checkRelationTarget(rel.target)
 	}
+	// Register the targets together with the table: the operation that needs the table may still be
+	// rejected (e.g. by a later table of a batch), but the table stays and must be cleaned up when a target dies.
+	s.registerTargets(relations)
 
 	var newTableID tableID
 	recycled := false
